@@ -97,7 +97,11 @@ fn operand_load(
         } => {
             let reg = get_register(*reg)?;
             let reg_value = reg.get();
-            assert_eq!(reg.bits(), 128);
+            // element arrangements are only modelled on the 128-bit vector
+            // registers (not on SVE predicate/vector registers)
+            if reg.bits() != 128 {
+                return Err(unsupported());
+            }
 
             let (shift, width) = arr_spec_offset_width(arrspec);
 
@@ -183,7 +187,9 @@ fn operand_store(block: &mut il::Block, opr: &bad64::Operand, value: il::Express
             arrspec: Some(arrspec),
         } => {
             let reg = get_register(*reg)?;
-            assert_eq!(reg.bits(), 128);
+            if reg.bits() != 128 {
+                return Err(unsupported());
+            }
 
             let (shift, width) = arr_spec_offset_width(arrspec);
             let is_indexed = is_arr_spec_indexed(arrspec);
